@@ -174,10 +174,9 @@ func run(c Case) kit.Outcome {
 			if !w.Up(op.A) {
 				continue
 			}
-			lc := longCall{a: op.A, done: make(chan kit.CallResult, 1)}
-			before := w.Env(op.A).LogLen()
-			go func() { lc.done <- w.Do(op.A, "call", kit.DirGate, 60*time.Second) }()
-			w.Env(op.A).WaitStarted(before+1, 2*time.Second)
+			lc := longCall{a: op.A}
+			lc.id, lc.done = w.DoAsync(op.A, "call", kit.DirGate, 60*time.Second)
+			w.Env(op.A).WaitStartedIDs([]uint64{lc.id}, 2*time.Second)
 			longs = append(longs, lc)
 			h("long call started on %d", op.A)
 			lastTraffic = time.Now()
@@ -187,7 +186,7 @@ func run(c Case) kit.Outcome {
 			}
 			lc := longs[0]
 			longs = longs[1:]
-			w.Env(lc.a).OpenAll()
+			w.Env(lc.a).Open(lc.id)
 			select {
 			case <-lc.done:
 			case <-time.After(bound):
@@ -239,7 +238,7 @@ func run(c Case) kit.Outcome {
 	}
 	// finish busy work, then the idle bound after a quiet period
 	for _, lc := range longs {
-		w.Env(lc.a).OpenAll()
+		w.Env(lc.a).Open(lc.id)
 		select {
 		case <-lc.done:
 		case <-time.After(bound):
